@@ -118,8 +118,34 @@ struct Ctx<'a> {
     locals: u32,
 }
 
+/// An expression of type uint that reads the resource (`@` stands for its name), for the kinds that have an obvious one
+fn index_expression(kind: &str) -> Option<&'static str> {
+    match kind {
+        "ByteAddressBuffer" | "RWByteAddressBuffer" => Some("@.Load(0)"),
+        "BufferAddress" | "RWBufferAddress" => Some("@.Load<uint>(0)"),
+        "Buffer<uint>" | "RWBuffer<uint>" => Some("@.Load(0)"),
+        "StructuredBuffer<Elem>" => Some("@.Load(0).b"),
+        "RWStructuredBuffer<uint>" => Some("@[1]"),
+        "ConstantBuffer<Elem>" => Some("@.b"),
+        "cbuffer" => Some("(uint)@.x"),
+        _ => None,
+    }
+}
+
 fn use_statement(cx: &mut Ctx, r: &Res) -> String {
     let q = r.qual();
+    // one use in five reads the resource only inside the index of a subscript of a local array
+    if r.array.is_none() && cx.rng.chance(1, 5) {
+        if let Some(form) = index_expression(r.kind) {
+            let name = match (&r.member, &r.ns) {
+                (Some(m), Some(ns)) => format!("{}::{}", ns, m),
+                (Some(m), None) => m.clone(),
+                (None, _) => q.clone(),
+            };
+            cx.locals += 1;
+            return format!("    uint ix{}[4] = {{ 0u, 1u, 2u, 3u }};\n    ix{}[({}) & 3u];\n", cx.locals, cx.locals, form.replace('@', &name));
+        }
+    }
     let core = if let Some(m) = &r.member {
         // cbuffer members are visible in the enclosing namespace
         let qm = match &r.ns {
